@@ -1,53 +1,24 @@
 import GqlProofs.Lemmas.VarsLemmas
-/- helper lemmas for C14_conforms_partial / C14_rejects_partial (scalar- and enum-based types) -/
+/- helper lemmas for C14_conforms / C14_rejects -/
 namespace Gql
 open Gql.Strconv
 
-/-- conformance with every legacy leniency (what a SUPPLIED value has to satisfy) -/
-abbrev CL (s : Schema) (t : GType) (v : GoVal) : Prop := conformsWith .legacy s t v = true
-/-- conformance with the five leniencies other than `flatNested` (what a RESULT satisfies since
-    the repair of R14d) -/
-abbrev CR (s : Schema) (t : GType) (v : GoVal) : Prop := conformsWith .afterR14d s t v = true
+/-- what a SUPPLIED value satisfies when coercion accepts it: `CoercibleExceptTypename` -/
+abbrev CL (s : Schema) (t : GType) (v : GoVal) : Prop := conformsWith .suppliedT s t v = true
+/-- what a RESULT satisfies: `ConformsExceptTypename` -/
+abbrev CR (s : Schema) (t : GType) (v : GoVal) : Prop := conformsWith .specT s t v = true
 
-theorem leafName_legacy (t : GType) : leafName .legacy t = some t.name := by
-  cases t <;> simp [leafName, Leniency.legacy, GType.name]
+theorem leafName_suppliedT (t : GType) : leafName .suppliedT t = some t.name := by
+  cases t <;> simp [leafName, Reading.suppliedT, GType.name]
 
 /-- for a value that is neither null nor a list, only the innermost name of the type matters -/
 theorem conformsWith_flat (s : Schema) (t t' : GType) (v : GoVal) (hn : t.name = t'.name)
     (h1 : v ≠ .nil) (h2 : ∀ e xs, v ≠ .slice e xs) :
-    conformsWith .legacy s t v = conformsWith .legacy s t' v := by
+    conformsWith .suppliedT s t v = conformsWith .suppliedT s t' v := by
   cases v with
   | nil => exact absurd rfl h1
   | slice e xs => exact absurd rfl (h2 e xs)
-  | _ => simp [conformsWith, leafName_legacy, hn]
-
-theorem str_lt : Gql.str "<" = [60] := by rfl
-
-theorem lower_eq_60 {d : Nat} (h : lower 60 = lower d) : d = 60 := by
-  unfold lower at h
-  split at h <;> split at h <;> omega
-
-theorem equalFoldAscii_lt (r t : Bytes) (fuel : Nat) (ht : t.head? ≠ some 60) :
-    equalFoldAscii (60 :: r) t fuel = false := by
-  cases fuel with
-  | zero => simp [equalFoldAscii]
-  | succ fuel =>
-    unfold equalFoldAscii
-    cases t with
-    | nil => simp
-    | cons d t' =>
-      simp only [List.head?_cons, ne_eq, Option.some.injEq] at ht
-      have : ¬ (lower 60 = lower d) := fun h => ht (lower_eq_60 h)
-      simp [this]
-
-/-- enum value names do not start with `<` (they are Names) -/
-def EnumNamesPlain (s : Schema) : Prop :=
-  ∀ n d, s.type? n = some d → ∀ ev ∈ d.enumValues, ev.name.head? ≠ some 60
-
-set_option linter.unusedSimpArgs false in
-theorem GoVal.float_type? (is32 : Bool) (t : Bytes) :
-    (GoVal.float is32 t).type? = some .float32 ∨ (GoVal.float is32 t).type? = some .float64 := by
-  cases is32 <;> simp [GoVal.type?]
+  | _ => simp [conformsWith, leafName_suppliedT, hn]
 
 set_option linter.unusedSimpArgs false in
 theorem scalar_accept_conforms (s : Schema) (n : Name) (nn : Bool) (p : Pos) (d : Definition)
@@ -64,39 +35,42 @@ theorem scalar_accept_conforms (s : Schema) (n : Name) (nn : Bool) (p : Pos) (d 
     | float is32 text =>
       cases is32 <;> cases b <;> simp only [GoVal.type?, Option.some.injEq, reduceCtorEq] at hty <;> subst hty <;>
       simp_all [conformsWith, leafName, leafOK, isCustomScalar, isBuiltinScalarName,
-        intOK, floatOK, stringOK, boolOK, idOK, Leniency.legacy, isIntLikeKind, isFloatKind,
+        intOK, floatOK, stringOK, boolOK, idOK, Reading.suppliedT, isIntLikeKind, isFloatKind,
         isValidIntString, isValidFloatString, GoType.kind, GoVal.stringContent]
     | _ =>
       cases b <;> simp only [GoVal.type?, Option.some.injEq, reduceCtorEq] at hty <;> subst hty <;>
       simp_all [conformsWith, leafName, leafOK, isCustomScalar, isBuiltinScalarName,
-        intOK, floatOK, stringOK, boolOK, idOK, Leniency.legacy, isIntLikeKind, isFloatKind,
+        intOK, floatOK, stringOK, boolOK, idOK, Reading.suppliedT, isIntLikeKind, isFloatKind,
         isValidIntString, isValidFloatString, GoType.kind, GoVal.stringContent]
 
-theorem any_equalFold_lt_false (r : Bytes) (fuel : Nat) (evs : List EnumValDef) (h : ∀ ev ∈ evs, ev.name.head? ≠ some 60) :
-    evs.any (fun ev => equalFoldAscii (60 :: r) ev.name fuel) = false := by
-  simp only [List.any_eq_false]
-  intro ev hev
-  simp [equalFoldAscii_lt r ev.name fuel (h ev hev)]
+theorem conformsWith_nil (L : Reading) (s : Schema) (t : GType) : conformsWith L s t .nil = !t.nonNull := by
+  cases t <;> simp [conformsWith]
+
+theorem enumNameOK_of_any {d : Definition} {x : Bytes}
+    (h : d.enumValues.any (fun ev => decide (x = ev.name)) = true) : enumNameOK d x = true := by
+  simp only [enumNameOK, List.any_eq_true, decide_eq_true_eq] at h ⊢
+  obtain ⟨ev, hev, e⟩ := h
+  exact ⟨ev, hev, e.symm⟩
 
 theorem enum_accept_conforms (s : Schema) (hplain : EnumNamesPlain s) (n : Name) (nn : Bool) (p : Pos) (d : Definition)
     (hd : s.type? n = some d) (hk : d.kind = .enum) (val : GoVal) (t : GoType) (hty : val.type? = some t)
     (hkind : (isIntLikeKind t.kind || decide (t.kind = .string)) = true)
-    (hany : d.enumValues.any (fun ev => equalFoldAscii val.reflectString ev.name) = true) :
+    (hany : d.enumValues.any (fun ev => decide (val.reflectString = ev.name)) = true) :
     CL s (.named n nn p) val := by
   unfold CL
   have hpl := hplain n d hd
   cases val with
   | str x =>
     simp only [GoVal.reflectString] at hany
-    simp [conformsWith, leafName, leafOK, hd, hk, enumOK, enumNameOK, Leniency.legacy, hany]
+    simp [conformsWith, leafName, leafOK, hd, hk, enumOK, enumNameOK_of_any hany]
   | jsonNumber x =>
     simp only [GoVal.reflectString] at hany
-    simp [conformsWith, leafName, leafOK, hd, hk, enumOK, enumNameOK, Leniency.legacy, hany]
+    simp [conformsWith, leafName, leafOK, hd, hk, enumOK, Reading.suppliedT, enumNameOK_of_any hany]
   | int k i =>
-    simp only [GoVal.reflectString, GoVal.type?] at hany
-    have e : (str "<" ++ str (GoType.int k).name ++ str " Value>") = 60 :: (str (GoType.int k).name ++ str " Value>") := by rfl
-    rw [e, any_equalFold_lt_false _ _ _ hpl] at hany
-    simp at hany
+    simp only [GoVal.reflectString, GoVal.type?, List.any_eq_true] at hany
+    obtain ⟨ev, hev, e⟩ := hany
+    have e' := of_decide_eq_true e
+    exact absurd (by rw [← e']; rfl) (hpl ev hev)
   | float is32 x =>
     cases is32 <;> simp only [GoVal.type?, Option.some.injEq] at hty <;> subst hty <;>
       simp [isIntLikeKind, GoType.kind] at hkind
@@ -104,133 +78,27 @@ theorem enum_accept_conforms (s : Schema) (hplain : EnumNamesPlain s) (n : Name)
     simp only [GoVal.type?, Option.some.injEq, reduceCtorEq] at hty <;> (try subst hty) <;>
       simp [isIntLikeKind, GoType.kind] at hkind
 
-end Gql
+/- ---------- on a scalar / enum NAMED type `single` is irrelevant ---------- -/
 
-namespace Gql
-open Gql.Strconv
-
-/- ---------- the representation invariant `wfB` ---------- -/
-
-mutual
-  theorem safe_wf : (v : GoVal) → safeB v = true → wfB v = true
-    | .slice e xs, h => by
-      simp only [safeB] at h
-      simpa [wfB] using safeItems_wf _ xs h
-    | .map e kvs, h => by
-      simp only [safeB, Bool.and_eq_true, decide_eq_true_eq] at h
-      obtain ⟨he, hk⟩ := h
-      subst he
-      simpa [wfB] using safeFields_wf kvs hk
-    | .nil, _ => rfl
-    | .bool _, _ => rfl
-    | .int _ _, _ => rfl
-    | .uint _ _, _ => rfl
-    | .float _ _, _ => rfl
-    | .jsonNumber _, _ => rfl
-    | .str _, _ => rfl
-  theorem safeItems_wf (b : Bool) : (xs : GoVals) → safeItemsB b xs = true → wfItemsB b xs = true
-    | .nil, _ => rfl
-    | .cons v r, h => by
-      simp only [safeItemsB, Bool.and_eq_true] at h
-      simp only [wfItemsB, Bool.and_eq_true]
-      exact ⟨⟨h.1.1, safe_wf v h.1.2⟩, safeItems_wf b r h.2⟩
-  theorem safeFields_wf : (kvs : GoFields) → safeFieldsB kvs = true → wfFieldsB true kvs = true
-    | .nil, _ => rfl
-    | .cons _ v r, h => by
-      simp only [safeFieldsB, Bool.and_eq_true] at h
-      simp only [wfFieldsB, Bool.and_eq_true, Bool.true_or, true_and]
-      exact ⟨safe_wf v h.1, safeFields_wf r h.2⟩
-end
-
-theorem wfFields_lookup (b : Bool) : ∀ (kvs : GoFields) (k : Bytes) (x : GoVal),
-    wfFieldsB b kvs = true → kvs.lookup k = some x → wfB x = true
-  | .nil, _, _, _, h => by simp [GoFields.lookup] at h
-  | .cons a w r, k, x, hs, h => by
-    simp only [wfFieldsB, Bool.and_eq_true] at hs
-    simp only [GoFields.lookup] at h
-    split at h
-    · cases h; exact hs.1.2
-    · exact wfFields_lookup b r k x hs.2 h
-
-/-- the list loop calls `f` on a null item only when the element type is nullable -/
-theorem listLoop_nil_nullable {b1 b2 : Bool} {x : GoVal} (h1 : (b1 || !x.isNil) = true)
-    (hcond : ¬ (b1 && b2 && x.isNil) = true) : x = .nil → b2 = false := by
-  intro hx
-  subst hx
-  cases b1 <;> cases b2 <;> simp_all [GoVal.isNil]
-
-theorem jsonNumberPre_wf {typ : GType} {val rv : GoVal} (hs : wfB val = true)
-    (h : jsonNumberPre typ val = .ok rv) : wfB rv = true := by
-  unfold jsonNumberPre at h
-  cases val with
-  | jsonNumber t =>
-    simp only [] at h
-    split at h
-    · split at h <;> first | (cases h; rfl) | simp at h
-    · split at h
-      · split at h <;> first | (cases h; rfl) | simp at h
-      · cases h; rfl
-  | _ => simp only [] at h; cases h; exact hs
-
-theorem jsonNumberPre_ne_nil {typ : GType} {val rv : GoVal} (hn : val ≠ .nil)
-    (h : jsonNumberPre typ val = .ok rv) : rv ≠ .nil := by
-  unfold jsonNumberPre at h
-  cases val with
-  | jsonNumber t =>
-    simp only [] at h
-    split at h
-    · split at h <;> first | (cases h; simp) | simp at h
-    · split at h
-      · split at h <;> first | (cases h; simp) | simp at h
-      · cases h; simp
-  | nil => exact absurd rfl hn
-  | _ => simp only [] at h; cases h; exact hn
-
-theorem suppliedValue_wf {vars : VarMap} {v : VarDef} {x : GoVal}
-    (hvars : wfFieldsB true vars = true)
-    (h : suppliedValue vars v = .ok (some x)) : wfB x = true := by
-  unfold suppliedValue at h
-  cases hl : vars.lookup v.var with
-  | some y => simp only [hl] at h; cases h; exact wfFields_lookup true vars v.var _ hvars hl
-  | none =>
-    simp only [hl] at h
-    cases hdv : v.default with
-    | none => simp only [hdv] at h; split at h <;> simp at h
-    | some dv =>
-      simp only [hdv] at h
-      cases hvv : valueValueConst dv with
-      | ok y => simp only [hvv] at h; cases h; exact safe_wf _ (valueValueConst_safe dv _ hvv)
-      | err e => simp [hvv] at h
-      | diverge => simp [hvv] at h
-
-/- ---------- on a scalar / enum NAMED type `flatNested` is irrelevant ---------- -/
-
-theorem leafOK_afterR14d (s : Schema) (n : Name) (v : GoVal) : leafOK .afterR14d s n v = leafOK .legacy s n v := by
+theorem leafOK_specT (s : Schema) (n : Name) (v : GoVal) : leafOK .specT s n v = leafOK .suppliedT s n v := by
   cases v <;> rfl
 
-theorem conformsWith_named_afterR14d (s : Schema) (n : Name) (nn : Bool) (p : Pos) (d : Definition)
+theorem conformsWith_named_leaf (s : Schema) (n : Name) (nn : Bool) (p : Pos) (d : Definition)
     (hd : s.type? n = some d) (hk : d.kind = .scalar ∨ d.kind = .enum) (v : GoVal) :
-    conformsWith .afterR14d s (.named n nn p) v = conformsWith .legacy s (.named n nn p) v := by
+    conformsWith .specT s (.named n nn p) v = conformsWith .suppliedT s (.named n nn p) v := by
   have hno : ¬ d.kind = .inputObject := by rcases hk with h | h <;> simp [h]
-  cases v <;> simp [conformsWith, leafName, leafOK_afterR14d, hd, hno]
+  cases v <;> simp [conformsWith, leafName, leafOK_specT, hd, hno]
 
-theorem storeElem_eq_ret (ret upd : GoVal) : storeElem ret upd = ret := rfl
-
-/-- the type's named type is a scalar or an enum (any list depth around it) -/
-def LeafTyped (s : Schema) (t : GType) : Prop :=
-  ∃ d, s.type? t.name = some d ∧ (d.kind = .scalar ∨ d.kind = .enum)
-
-/-- what a successful `validateVarType` call guarantees on scalar-based and enum-based types: the
-    RETURNED value conforms with list nesting exact (`CR`), the ARGUMENT conformed up to
-    single-value-to-list coercion (`CL`) -/
-def ConfTriple (s : Schema) (t : GType) (val : GoVal) : Res (GoVal × GoVal) → Prop
-  | .ok (ret, _) => CR s t ret ∧ CL s t val
+/-- what a successful `validateVarType` call guarantees: the RETURNED value conforms (`CR`:
+    `ConformsExceptTypename`, list nesting exact), the ARGUMENT was coercible (`CL`) -/
+def Conf (s : Schema) (t : GType) (val : GoVal) : Res GoVal → Prop
+  | .ok ret => CR s t ret ∧ CL s t val
   | _ => True
 
-theorem listLoop_conforms (s : Schema) (e : GType) (f : Path → GoVal → Res (GoVal × GoVal)) (path : Path) (b1 b2 : Bool)
-    (hf : ∀ p x, wfB x = true → (x = .nil → b2 = false) → ConfTriple s e x (f p x)) :
+theorem listLoop_conforms (s : Schema) (e : GType) (f : Path → GoVal → Res GoVal) (path : Path) (b1 b2 : Bool)
+    (hf : ∀ p x, wfB x = true → (x = .nil → b2 = false) → Conf s e x (f p x)) :
     ∀ (xs xs' : GoVals) (i : Nat), wfItemsB b1 xs = true → listLoop f path b1 b2 i xs = .ok xs' →
-      allConform .afterR14d s e xs' = true ∧ allConform .legacy s e xs = true
+      allConform .specT s e xs' = true ∧ allConform .suppliedT s e xs = true
   | .nil, xs', i, _, h => by simp only [listLoop] at h; cases h; simp [allConform]
   | .cons x rest, xs', i, hw, h => by
     simp only [wfItemsB, Bool.and_eq_true] at hw
@@ -240,15 +108,14 @@ theorem listLoop_conforms (s : Schema) (e : GType) (f : Path → GoVal → Res (
     · rename_i hcond
       have hx := hf (path ++ [.idx i]) x hw.1.2 (listLoop_nil_nullable hw.1.1 hcond)
       cases hfx : f (path ++ [.idx i]) x with
-      | ok pr =>
-        obtain ⟨ret, upd⟩ := pr
-        simp only [hfx, ConfTriple] at hx
+      | ok ret =>
+        simp only [hfx, Conf] at hx
         simp only [hfx] at h
         cases hl : listLoop f path b1 b2 (i + 1) rest with
         | ok rest' =>
           simp only [hl] at h; cases h
           obtain ⟨a, b⟩ := listLoop_conforms s e f path b1 b2 hf rest rest' (i + 1) hw.2 hl
-          simp [allConform, storeElem_eq_ret, hx.1, a, b, hx.2]
+          simp [allConform, hx.1, a, b, hx.2]
         | err m p a => simp [hl] at h
         | panic m => simp [hl] at h
         | outOfFuel => simp [hl] at h
@@ -264,110 +131,357 @@ theorem vvt_list_nonslice (s : Schema) (fuel : Nat) (path : Path) (e : GType) (n
        | none => .panic typeOnZeroMsg
        | some t =>
          match validateVarType s fuel (path ++ [.idx 0]) e val with
-         | .ok (ret, upd) =>
-           .ok (.slice (storeElemType t (.cons val .nil) (.cons (storeElem ret upd) .nil)) (.cons (storeElem ret upd) .nil), upd)
+         | .ok ret => .ok (.slice (storeElemType t (.cons val .nil) (.cons ret .nil)) (.cons ret .nil))
          | .err m p a => .err m p a
          | .panic m => .panic m
          | .outOfFuel => .outOfFuel) := by
   cases val <;> first | exact absurd rfl hn | exact absurd rfl (h _ _) | rfl
 
-/-- since the repair of R14a a null where a list is expected is returned as it is -/
+/-- a null where a list is expected is returned as it is -/
 theorem vvt_list_nil (s : Schema) (fuel : Nat) (path : Path) (e : GType) (nn : Bool) (p : Pos) :
-    validateVarType s (fuel + 1) path (.list e nn p) .nil = .ok (.nil, .nil) := by
+    validateVarType s (fuel + 1) path (.list e nn p) .nil = .ok .nil := by
   rfl
 
-theorem validateVarType_conforms (s : Schema) (hplain : EnumNamesPlain s) :
+/- ---------- the field loop ---------- -/
+
+theorem GoFields.contains_of_lookup {kvs : GoFields} {k : Bytes} {x : GoVal} (h : kvs.lookup k = some x) :
+    kvs.contains k = true := by simp [GoFields.contains, h]
+
+theorem GoFields.lookup_of_contains {kvs : GoFields} {k : Bytes} (h : kvs.contains k = true) :
+    ∃ x, kvs.lookup k = some x := by
+  simp only [GoFields.contains, Option.isSome_iff_exists] at h; exact h
+
+/-- the first loop of the InputObject branch found no offending key -/
+theorem unknownKeys_nil {fields : List FieldDef} : ∀ {kvs : GoFields}, unknownKeys fields kvs = [] →
+    ∀ k x, kvs.lookup k = some x → k = str "__typename" ∨ ∃ fd, findField fields k = some fd
+  | .nil, _, k, x, h => by simp [GoFields.lookup] at h
+  | .cons a w r, hu, k, x, h => by
+    simp only [unknownKeys] at hu
+    simp only [GoFields.lookup] at h
+    by_cases ha : a = str "__typename"
+    · simp only [ha, if_true] at hu
+      split at h
+      · rename_i e; left; rw [← e, ha]
+      · exact unknownKeys_nil hu k x h
+    · simp only [ha, if_false] at hu
+      cases hfd : findField fields a with
+      | none => simp [hfd] at hu
+      | some fd =>
+        simp only [hfd] at hu
+        split at h
+        · rename_i e; right; rw [← e]; exact ⟨fd, hfd⟩
+        · exact unknownKeys_nil hu k x h
+
+/-- with unique keys, `fieldsDeclared` is a statement about `lookup` -/
+theorem fieldsDeclared_of_lookup (L : Reading) (s : Schema) (fields : List FieldDef) (b : Bool) :
+    ∀ (kvs : GoFields), wfFieldsB b kvs = true →
+      (∀ k v, kvs.lookup k = some v →
+        (match fields.find? (fun f => f.name = k) with
+          | some fd => conformsWith L s fd.type v
+          | none => L.typenameKey && decide (k = str "__typename")) = true) →
+      fieldsDeclared L s fields kvs = true
+  | .nil, _, _ => by simp [fieldsDeclared]
+  | .cons a w r, hw, h => by
+    simp only [wfFieldsB, Bool.and_eq_true] at hw
+    simp only [fieldsDeclared, Bool.and_eq_true]
+    refine ⟨h a w (by simp [GoFields.lookup]), fieldsDeclared_of_lookup L s fields b r hw.2 ?_⟩
+    intro k v hk
+    apply h k v
+    have hne : a ≠ k := by
+      intro e; subst e
+      have := GoFields.contains_of_lookup hk
+      simp [this] at hw
+    simp [GoFields.lookup, hne, hk]
+
+/-- the invariant of the field loop.  `hg`: the recursive call does not panic and keeps
+    well-formedness; `hf`: it returns conforming values. -/
+theorem fieldLoop_conforms (s : Schema) (f : Path → GType → GoVal → Res GoVal) (path : Path)
+    (hg : ∀ p t x, InputTypeOK s t → wfB x = true → x ≠ .nil → GoodVal x (f p t x))
+    (hf : ∀ p t x, InputTypeOK s t → wfB x = true → x ≠ .nil → Conf s t x (f p t x)) :
+    ∀ (fields : List FieldDef) (elem : GoType) (kvs : GoFields) (elem' : GoType) (kvs' : GoFields),
+      (fields.map (·.name)).Nodup → (∀ fd ∈ fields, InputTypeOK s fd.type) →
+      wfFieldsB (decide (elem = .iface)) kvs = true →
+      fieldLoop f path fields elem kvs = .ok (elem', kvs') →
+        (∀ k, kvs'.contains k = kvs.contains k) ∧
+        (∀ k, (∀ fd ∈ fields, fd.name ≠ k) → kvs'.lookup k = kvs.lookup k) ∧
+        (∀ fd ∈ fields, (fd.required = true → kvs.contains fd.name = true) ∧
+          ∀ x, kvs.lookup fd.name = some x → CL s fd.type x ∧ ∃ y, kvs'.lookup fd.name = some y ∧ CR s fd.type y)
+  | [], elem, kvs, elem', kvs', _, _, _, h => by
+    simp only [fieldLoop] at h; cases h
+    exact ⟨fun _ => rfl, fun _ _ => rfl, fun fd hfd => by simp at hfd⟩
+  | fd :: rest, elem, kvs, elem', kvs', hnd, ht, hw, h => by
+    simp only [List.map_cons, List.nodup_cons, List.mem_map, not_exists, not_and] at hnd
+    have htr : ∀ fd' ∈ rest, InputTypeOK s fd'.type := fun fd' h' => ht fd' (by simp [h'])
+    have ih := fun e2 k2 => fieldLoop_conforms s f path hg hf rest e2 k2 elem' kvs' hnd.2 htr
+    have hnotin : ∀ fd' ∈ rest, fd'.name ≠ fd.name := fun fd' h' e => hnd.1 fd' h' e
+    -- the step that leaves the map unchanged
+    have skip : fieldLoop f path rest elem kvs = .ok (elem', kvs') →
+        (fd.required = true → kvs.contains fd.name = true) →
+        (∀ x, kvs.lookup fd.name = some x → CL s fd.type x ∧ CR s fd.type x) →
+        (∀ k, kvs'.contains k = kvs.contains k) ∧
+        (∀ k, (∀ fd' ∈ fd :: rest, fd'.name ≠ k) → kvs'.lookup k = kvs.lookup k) ∧
+        (∀ fd' ∈ fd :: rest, (fd'.required = true → kvs.contains fd'.name = true) ∧
+          ∀ x, kvs.lookup fd'.name = some x → CL s fd'.type x ∧ ∃ y, kvs'.lookup fd'.name = some y ∧ CR s fd'.type y) := by
+      intro h' hreq hx
+      obtain ⟨a, b, c⟩ := ih elem kvs hw h'
+      refine ⟨a, fun k hk => b k (fun fd' h'' => hk fd' (by simp [h''])), ?_⟩
+      intro fd' hfd'
+      rcases List.mem_cons.mp hfd' with e | hin
+      · subst e
+        refine ⟨hreq, fun x hxl => ⟨(hx x hxl).1, x, ?_, (hx x hxl).2⟩⟩
+        rw [b fd'.name hnotin]; exact hxl
+      · exact c fd' hin
+    simp only [fieldLoop] at h
+    cases hl : kvs.lookup fd.name with
+    | none =>
+      simp only [hl] at h
+      have hx : ∀ x, kvs.lookup fd.name = some x → CL s fd.type x ∧ CR s fd.type x := by
+        intro x hxl; rw [hl] at hxl; cases hxl
+      by_cases hnn : fd.type.nonNull = true
+      · simp only [hnn, if_true] at h
+        cases hdf : fd.default with
+        | none => simp [hdf] at h
+        | some dv =>
+          simp only [hdf] at h
+          split at h
+          · exact skip h (by simp [FieldDef.required, hdf]) hx
+          · simp at h
+      · simp only [hnn, Bool.false_eq_true, if_false] at h
+        exact skip h (by simp [FieldDef.required, hnn]) hx
+    | some x =>
+      simp only [hl] at h
+      obtain ⟨hxw, hxn⟩ := wfFields_lookup _ kvs fd.name x hw hl
+      have hcont : kvs.contains fd.name = true := GoFields.contains_of_lookup hl
+      by_cases hn : (decide (elem = .iface) && x.isNil) = true
+      · simp only [hn, if_true] at h
+        split at h
+        · simp at h
+        · rename_i hnn
+          have hxnil : x = .nil := by
+            simp only [Bool.and_eq_true] at hn; exact (GoVal.isNil_iff x).mp hn.2
+          apply skip h (fun _ => hcont)
+          intro x' hx'
+          rw [hl] at hx'; cases hx'
+          subst hxnil
+          have : fd.type.nonNull = false := by simpa using hnn
+          simp [CL, CR, conformsWith_nil, this]
+      · simp only [hn, Bool.false_eq_true, if_false] at h
+        have hxne : x ≠ .nil := by
+          intro e; subst e
+          cases h' : decide (elem = .iface) <;> simp_all [GoVal.isNil]
+        have hgx := hg (path ++ [.name fd.name]) fd.type x (ht fd (by simp)) hxw hxne
+        have hfx := hf (path ++ [.name fd.name]) fd.type x (ht fd (by simp)) hxw hxne
+        cases hr : f (path ++ [.name fd.name]) fd.type x with
+        | ok cval =>
+          simp only [hr, GoodVal] at hgx
+          simp only [hr, Conf] at hfx
+          simp only [hr] at h
+          cases hty : cval.type? with
+          | none => simp [hty] at h
+          | some t =>
+            simp only [hty] at h
+            have hcn : cval.isNil = false := (GoVal.isNil_false_iff cval).mpr (hgx.2 hxne)
+            have hw2 : wfFieldsB (decide ((if assignable (some t) elem = true then elem else GoType.iface) = .iface))
+                (kvs.set fd.name cval) = true := by
+              apply wfFields_set _ kvs fd.name cval _ hgx.1 (by simp [hcn])
+              split
+              · exact hw
+              · simpa using wfFields_mono kvs _ hw
+            obtain ⟨a, b, c⟩ := ih _ _ hw2 h
+            refine ⟨?_, ?_, ?_⟩
+            · intro k
+              rw [a k, GoFields.contains_set]
+              by_cases e : fd.name = k
+              · subst e; simp [hcont]
+              · simp [e]
+            · intro k hk
+              rw [b k (fun fd' h'' => hk fd' (by simp [h''])), GoFields.lookup_set]
+              simp [hk fd (by simp)]
+            · intro fd' hfd'
+              rcases List.mem_cons.mp hfd' with e | hin
+              · subst e
+                refine ⟨fun _ => hcont, fun x' hx' => ?_⟩
+                rw [hl] at hx'; cases hx'
+                refine ⟨hfx.2, cval, ?_, hfx.1⟩
+                rw [b fd'.name hnotin, GoFields.lookup_set]; simp
+              · obtain ⟨c1, c2⟩ := c fd' hin
+                have hne : fd.name ≠ fd'.name := fun e => hnotin fd' hin e.symm
+                refine ⟨fun hq => ?_, fun x' hx' => ?_⟩
+                · have := c1 hq
+                  rw [GoFields.contains_set] at this
+                  simpa [hne] using this
+                · apply c2 x'
+                  rw [GoFields.lookup_set]; simp [hne, hx']
+        | err m p a => simp [hr] at h
+        | panic m => simp [hr] at h
+        | outOfFuel => simp [hr] at h
+
+/-- requiredPresent from the per-field statement -/
+theorem requiredPresent_of (fields : List FieldDef) (kvs : GoFields)
+    (h : ∀ fd ∈ fields, fd.required = true → kvs.contains fd.name = true) : requiredPresent fields kvs = true := by
+  simp only [requiredPresent, List.all_eq_true, Bool.or_eq_true, Bool.not_eq_true']
+  intro fd hfd
+  cases hr : fd.required
+  · exact Or.inl rfl
+  · exact Or.inr (h fd hfd hr)
+
+theorem validateVarType_conforms (s : Schema) (hc : InputsClosed s) (hfn : InputFieldsNodup s) (hplain : EnumNamesPlain s) :
     ∀ (fuel : Nat) (path : Path) (typ : GType) (val : GoVal),
-      LeafTyped s typ → wfB val = true → (val = .nil → typ.nonNull = false) →
-      ConfTriple s typ val (validateVarType s fuel path typ val)
-  | 0, _, _, _, _, _, _ => by simp [validateVarType, ConfTriple]
+      InputTypeOK s typ → wfB val = true → (val = .nil → typ.nonNull = false) →
+      Conf s typ val (validateVarType s fuel path typ val)
+  | 0, _, _, _, _, _, _ => by simp [validateVarType, Conf]
   | fuel + 1, path, typ, val, ht, hw, hnn => by
-    have ih := validateVarType_conforms s hplain fuel
+    have ih := validateVarType_conforms s hc hfn hplain fuel
+    have ihg := validateVarType_good s hc fuel
     cases typ with
     | list e nn p =>
-      have hte : LeafTyped s e := by simpa [LeafTyped, GType.name] using ht
+      have hte : InputTypeOK s e := by simpa [InputTypeOK, GType.name] using ht
       by_cases hvn : val = .nil
       · subst hvn
         have := hnn rfl
         simp only [GType.nonNull] at this
         subst this
         rw [vvt_list_nil]
-        simp [ConfTriple, CL, CR, conformsWith, GType.nonNull]
+        simp [Conf, CL, CR, conformsWith_nil, GType.nonNull]
       by_cases hsl : ∃ t xs, val = GoVal.slice t xs
       · obtain ⟨t, xs, rfl⟩ := hsl
-        simp only [validateVarType, GoVal.isNil, Bool.and_false, Bool.false_eq_true, if_false]
+        simp only [validateVarType, GoVal.isNil, Bool.false_eq_true, if_false]
         have hxs : wfItemsB (decide (t = .iface)) xs = true := by simpa [wfB] using hw
         cases hr : listLoop (fun p x => validateVarType s fuel p e x) path (decide (t = .iface)) e.nonNull 0 xs with
         | ok xs' =>
           obtain ⟨a, b⟩ := listLoop_conforms s e _ path _ _ (fun p x h1 h2 => ih p e x hte h1 h2) xs xs' 0 hxs hr
-          simp [ConfTriple, CL, CR, conformsWith, a, b]
-        | err m p a => simp [ConfTriple]
-        | panic m => simp [ConfTriple]
-        | outOfFuel => simp [ConfTriple]
+          simp [Conf, CL, CR, conformsWith, a, b]
+        | err m p a => simp [Conf]
+        | panic m => simp [Conf]
+        | outOfFuel => simp [Conf]
       · have hns : ∀ t xs, val ≠ GoVal.slice t xs := fun t xs h => hsl ⟨t, xs, h⟩
         rw [vvt_list_nonslice s fuel path e nn p val hvn hns]
         cases hty : val.type? with
-        | none => simp [ConfTriple]
+        | none => simp [Conf]
         | some t =>
           have hg := ih (path ++ [.idx 0]) e val hte hw (fun h => absurd h hvn)
           revert hg
           simp only []
           cases validateVarType s fuel (path ++ [.idx 0]) e val with
-          | ok pr =>
-            obtain ⟨ret, upd⟩ := pr
+          | ok ret =>
             intro hg
-            simp only [ConfTriple] at hg
+            simp only [Conf] at hg
             obtain ⟨h1, h3⟩ := hg
-            have hflat : conformsWith .legacy s (.list e nn p) val = conformsWith .legacy s e val :=
+            have hflat : conformsWith .suppliedT s (.list e nn p) val = conformsWith .suppliedT s e val :=
               conformsWith_flat s (.list e nn p) e val (by simp [GType.name]) hvn hns
             refine ⟨?_, ?_⟩
-            · simp [CR, conformsWith, allConform, storeElem_eq_ret, h1]
+            · simp [CR, conformsWith, allConform, h1]
             · simp only [CL, hflat]; exact h3
-          | err m p a => simp [ConfTriple]
-          | panic m => simp [ConfTriple]
-          | outOfFuel => simp [ConfTriple]
+          | err m p a => simp [Conf]
+          | panic m => simp [Conf]
+          | outOfFuel => simp [Conf]
     | named n nn p =>
       obtain ⟨d, hd, hk⟩ := ht
       simp only [GType.name] at hd
       simp only [validateVarType, hd]
       by_cases hnil : (!nn && val.isNil) = true
-      · simp only [hnil, if_true, ConfTriple, CL, CR]
+      · simp only [hnil, if_true, Conf, CL, CR]
         simp only [Bool.and_eq_true, Bool.not_eq_true'] at hnil
         have : val = .nil := (GoVal.isNil_iff val).mp hnil.2
         subst this
-        simp [conformsWith, GType.nonNull, hnil.1]
-      · simp only [hnil]
-        have hcr : CL s (.named n nn p) val → CR s (.named n nn p) val := by
-          intro h; simp only [CR, conformsWith_named_afterR14d s n nn p d hd hk val]; exact h
-        cases hty : val.type? with
-        | none =>
-          rcases hk with hk | hk <;> simp [hk, ConfTriple]
-        | some t =>
-          rcases hk with hk | hk
-          · simp only [hk]
+        simp [conformsWith_nil, GType.nonNull, hnil.1]
+      · simp only [hnil, Bool.false_eq_true, if_false]
+        rcases hk with hk | hk | hk
+        · -- scalar
+          have hcr : CL s (.named n nn p) val → CR s (.named n nn p) val := by
+            intro h; simp only [CR, conformsWith_named_leaf s n nn p d hd (Or.inl hk) val]; exact h
+          simp only [hk]
+          cases hty : val.type? with
+          | none => simp [Conf]
+          | some t =>
+            simp only []
             cases hacc : builtinScalarAccepts n val t.kind with
             | none =>
               have := scalar_accept_conforms s n nn p d hd hk val t hty (by simp [hacc])
               exact ⟨hcr this, this⟩
             | some b =>
               cases b
-              · simp [ConfTriple]
+              · simp [Conf]
               · have := scalar_accept_conforms s n nn p d hd hk val t hty (by simp [hacc])
                 exact ⟨hcr this, this⟩
-          · simp only [hk]
+        · -- enum
+          have hcr : CL s (.named n nn p) val → CR s (.named n nn p) val := by
+            intro h; simp only [CR, conformsWith_named_leaf s n nn p d hd (Or.inr hk) val]; exact h
+          simp only [hk]
+          cases hty : val.type? with
+          | none => simp [Conf]
+          | some t =>
+            simp only []
             by_cases hkind : (isIntLikeKind t.kind || decide (t.kind = Kind.string)) = true
             · simp only [hkind, Bool.not_true, Bool.false_eq_true, if_false]
-              by_cases hany : (d.enumValues.any fun ev => equalFoldAscii val.reflectString ev.name) = true
+              by_cases hany : (d.enumValues.any fun ev => decide (val.reflectString = ev.name)) = true
               · simp only [hany, if_true]
                 have := enum_accept_conforms s hplain n nn p d hd hk val t hty hkind hany
                 exact ⟨hcr this, this⟩
-              · simp [hany, ConfTriple]
-            · simp [hkind, ConfTriple]
-
-end Gql
-
-namespace Gql
-open Gql.Strconv
+              · simp [hany, Conf]
+            · simp [hkind, Conf]
+        · -- input object
+          simp only [hk]
+          cases val with
+          | map elem kvs =>
+            simp only []
+            have hkvs : wfFieldsB (decide (elem = .iface)) kvs = true := by simpa [wfB] using hw
+            cases hu : unknownKeys d.fields kvs with
+            | cons k others => simp [Conf]
+            | nil =>
+              simp only []
+              have hgf := fun p t x h0 h1 (h2 : x ≠ .nil) => ihg p t x h0 h1 (fun h => absurd h h2)
+              have hcf := fun p t x h0 h1 (h2 : x ≠ .nil) => ih p t x h0 h1 (fun h => absurd h h2)
+              have hgood := fieldLoop_good s (fun p t x => validateVarType s fuel p t x) path hgf d.fields elem kvs (hc n d hd hk) hkvs
+              cases hr : fieldLoop (fun p t x => validateVarType s fuel p t x) path d.fields elem kvs with
+              | ok pr =>
+                obtain ⟨e', kvs'⟩ := pr
+                simp only [hr, GoodFields] at hgood
+                obtain ⟨a, b, c⟩ := fieldLoop_conforms s _ path hgf hcf d.fields elem kvs e' kvs' (hfn n d hd hk) (hc n d hd hk) hkvs hr
+                have hun := unknownKeys_nil hu
+                simp only [Conf, CR, CL, conformsWith, leafName, hd, hk, if_true, Bool.and_eq_true]
+                refine ⟨⟨?_, ?_⟩, ⟨?_, ?_⟩⟩
+                · -- the returned map holds only declared fields (and `__typename`), each conforming
+                  apply fieldsDeclared_of_lookup _ s d.fields _ kvs' hgood
+                  intro k v hkv
+                  obtain ⟨x, hx⟩ := GoFields.lookup_of_contains (by rw [← a k]; exact GoFields.contains_of_lookup hkv)
+                  cases hfd : d.fields.find? (fun f => f.name = k) with
+                  | some fd =>
+                    simp only []
+                    have hmem := List.mem_of_find?_eq_some hfd
+                    have hname : fd.name = k := by simpa using List.find?_some hfd
+                    subst hname
+                    obtain ⟨_, y, hy, hcy⟩ := (c fd hmem).2 x hx
+                    rw [hkv] at hy; cases hy; exact hcy
+                  | none =>
+                    simp only []
+                    rcases hun k x hx with e | ⟨fd, hfd'⟩
+                    · simp [Reading.specT, e]
+                    · simp only [findField] at hfd'; rw [hfd] at hfd'; cases hfd'
+                · apply requiredPresent_of
+                  intro fd hfd hreq
+                  rw [a fd.name]; exact (c fd hfd).1 hreq
+                · apply fieldsDeclared_of_lookup _ s d.fields _ kvs hkvs
+                  intro k x hx
+                  cases hfd : d.fields.find? (fun f => f.name = k) with
+                  | some fd =>
+                    simp only []
+                    have hmem := List.mem_of_find?_eq_some hfd
+                    have hname : fd.name = k := by simpa using List.find?_some hfd
+                    subst hname
+                    exact ((c fd hmem).2 x hx).1
+                  | none =>
+                    simp only []
+                    rcases hun k x hx with e | ⟨fd, hfd'⟩
+                    · simp [Reading.suppliedT, e]
+                    · simp only [findField] at hfd'; rw [hfd] at hfd'; cases hfd'
+                · apply requiredPresent_of
+                  intro fd hfd hreq
+                  exact (c fd hfd).1 hreq
+              | err m p a => simp [Conf]
+              | panic m => simp [Conf]
+              | outOfFuel => simp [Conf]
+          | _ => simp [Conf]
 
 theorem lookup_mem {α β} [BEq α] [LawfulBEq α] {l : List (α × β)} {k : α} {v : β} (h : l.lookup k = some v) : (k, v) ∈ l := by
   induction l with
@@ -382,8 +496,7 @@ theorem lookup_mem {α β} [BEq α] [LawfulBEq α] {l : List (α × β)} {k : α
 theorem builtinOf_Int : builtinOf (str "Int") = some .int := by decide
 theorem builtinOf_Float : builtinOf (str "Float") = some .float := by decide
 
-/-- the `json.Number` pre-conversion maps a leniently conforming converted value back to a
-    leniently conforming supplied value -/
+/-- the `json.Number` pre-conversion maps a coercible converted value back to a coercible supplied value -/
 theorem jsonNumberPre_conforms_back (s : Schema) (typ : GType) (x rv : GoVal)
     (h : jsonNumberPre typ x = .ok rv) (hc : CL s typ rv) : CL s typ x := by
   unfold jsonNumberPre at h
@@ -434,8 +547,9 @@ theorem jsonNumberPre_conforms_back (s : Schema) (typ : GType) (x rv : GoVal)
   | _ => simp only [] at h; cases h; exact hc
 
 /-- what one successful `coerceSupplied` stores, and what it implies about the supplied value -/
-theorem coerceSupplied_conforms (s : Schema) (hplain : EnumNamesPlain s) (op : OperationDef) (v : VarDef)
-    (acc c : GoFields) (x : GoVal) (ht : LeafTyped s v.type) (hwf : wfB x = true)
+theorem coerceSupplied_conforms (s : Schema) (hc : InputsClosed s) (hfn : InputFieldsNodup s) (hplain : EnumNamesPlain s)
+    (op : OperationDef) (v : VarDef)
+    (acc c : GoFields) (x : GoVal) (ht : InputTypeOK s v.type) (hwf : wfB x = true)
     (h : coerceSupplied s op v acc x = .ok c) :
     (∃ y, c = acc.set v.var y ∧ CR s v.type y) ∧ CL s v.type x := by
   unfold coerceSupplied at h
@@ -447,25 +561,21 @@ theorem coerceSupplied_conforms (s : Schema) (hplain : EnumNamesPlain s) (op : O
     · simp at h
     · rename_i hnn
       cases h
-      have : conformsWith .legacy s v.type .nil = true := by
-        cases hv : v.type <;> simp_all [conformsWith, GType.nonNull]
-      have this' : conformsWith .afterR14d s v.type .nil = true := by
-        cases hv : v.type <;> simp_all [conformsWith, GType.nonNull]
-      exact ⟨⟨.nil, rfl, this'⟩, this⟩
+      have hnn' : v.type.nonNull = false := by simpa using hnn
+      exact ⟨⟨.nil, rfl, by simp [CR, conformsWith_nil, hnn']⟩, by simp [CL, conformsWith_nil, hnn']⟩
   · simp only [hn] at h
     cases hj : jsonNumberPre v.type x with
     | error m => simp [hj] at h
     | ok rv =>
       simp only [hj] at h
-      have hrv : rv ≠ .nil := jsonNumberPre_ne_nil (fun e => hn ((GoVal.isNil_iff x).mpr e)) hj
-      have hg := validateVarType_conforms s hplain (fuelFor s op rv) (varPath v) v.type rv ht
-        (jsonNumberPre_wf hwf hj) (fun e => absurd e hrv)
+      obtain ⟨hrw, hrv⟩ := jsonNumberPre_good hwf (fun e => hn ((GoVal.isNil_iff x).mpr e)) hj
+      have hg := validateVarType_conforms s hc hfn hplain (fuelFor s op rv) (varPath v) v.type rv ht
+        hrw (fun e => absurd e hrv)
       revert hg h
       cases validateVarType s (fuelFor s op rv) (varPath v) v.type rv with
-      | ok pr =>
-        obtain ⟨rval, upd⟩ := pr
+      | ok rval =>
         intro h hg
-        simp only [ConfTriple] at hg
+        simp only [Conf] at hg
         by_cases hr : rval.isNil = true
         · simp [hr] at h
         · simp [hr] at h
@@ -474,5 +584,299 @@ theorem coerceSupplied_conforms (s : Schema) (hplain : EnumNamesPlain s) (op : O
       | err m p a => intro h _; simp at h
       | panic m => intro h _; simp at h
       | outOfFuel => intro h _; simp at h
+
+/-- a variable that got through `coerceVar` has an input type that exists -/
+theorem coerceVar_inputType {s : Schema} {op : OperationDef} {vars : VarMap} {v : VarDef} {coerced c : GoFields}
+    (h : coerceVar s op vars v coerced = .ok c) : InputTypeOK s v.type := by
+  unfold coerceVar at h
+  cases hd : s.type? v.type.name with
+  | none => simp [hd] at h
+  | some d =>
+    simp only [hd] at h
+    by_cases hin : d.isInputType = true
+    · exact ⟨d, hd, isInputType_kind hin⟩
+    · simp [hin] at h
+
+/- ---------- without the key `__typename` the R14c exception is not used ---------- -/
+
+theorem leafOK_spec_specT (s : Schema) (n : Name) (v : GoVal) : leafOK .specT s n v = leafOK .spec s n v := by
+  cases v <;> rfl
+theorem leafOK_supplied_suppliedT (s : Schema) (n : Name) (v : GoVal) : leafOK .suppliedT s n v = leafOK .supplied s n v := by
+  cases v <;> rfl
+
+mutual
+  theorem conforms_dropT (s : Schema) (b : Bool) : (t : GType) → (v : GoVal) → noTypenameB v = true →
+      conformsWith { typenameKey := true, single := b } s t v = true → conformsWith { typenameKey := false, single := b } s t v = true
+    | t, .nil, _, h => by simpa [conformsWith] using h
+    | t, .slice e xs, hn, h => by
+      cases t with
+      | list el nn p =>
+        simp only [conformsWith] at h ⊢
+        exact allConform_dropT s b el xs (by simpa [noTypenameB] using hn) h
+      | named n nn p => simpa [conformsWith] using h
+    | t, .map e kvs, hn, h => by
+      simp only [conformsWith] at h ⊢
+      have hl : leafName { typenameKey := true, single := b } t = leafName { typenameKey := false, single := b } t := by
+        cases t <;> rfl
+      rw [← hl]
+      cases hln : leafName { typenameKey := true, single := b } t with
+      | none => simp [hln] at h
+      | some n =>
+        simp only [hln] at h ⊢
+        cases hd : s.type? n with
+        | none => simp [hd] at h
+        | some d =>
+          simp only [hd] at h ⊢
+          by_cases hk : d.kind = .inputObject
+          · simp only [hk, if_true, Bool.and_eq_true] at h ⊢
+            exact ⟨fieldsDeclared_dropT s b d.fields kvs (by simpa [noTypenameB] using hn) h.1, h.2⟩
+          · simpa [hk] using h
+    | t, .bool x, _, h => by
+      simp only [conformsWith] at h ⊢
+      have hl : leafName { typenameKey := true, single := b } t = leafName { typenameKey := false, single := b } t := by
+        cases t <;> rfl
+      rw [← hl]; exact h
+    | t, .int k x, _, h => by
+      simp only [conformsWith] at h ⊢
+      have hl : leafName { typenameKey := true, single := b } t = leafName { typenameKey := false, single := b } t := by
+        cases t <;> rfl
+      rw [← hl]; exact h
+    | t, .uint k x, _, h => by
+      simp only [conformsWith] at h ⊢
+      have hl : leafName { typenameKey := true, single := b } t = leafName { typenameKey := false, single := b } t := by
+        cases t <;> rfl
+      rw [← hl]; exact h
+    | t, .float k x, _, h => by
+      simp only [conformsWith] at h ⊢
+      have hl : leafName { typenameKey := true, single := b } t = leafName { typenameKey := false, single := b } t := by
+        cases t <;> rfl
+      rw [← hl]; exact h
+    | t, .jsonNumber x, _, h => by
+      simp only [conformsWith] at h ⊢
+      have hl : leafName { typenameKey := true, single := b } t = leafName { typenameKey := false, single := b } t := by
+        cases t <;> rfl
+      rw [← hl]; exact h
+    | t, .str x, _, h => by
+      simp only [conformsWith] at h ⊢
+      have hl : leafName { typenameKey := true, single := b } t = leafName { typenameKey := false, single := b } t := by
+        cases t <;> rfl
+      rw [← hl]; exact h
+  theorem allConform_dropT (s : Schema) (b : Bool) (el : GType) : (xs : GoVals) → noTypenameItemsB xs = true →
+      allConform { typenameKey := true, single := b } s el xs = true → allConform { typenameKey := false, single := b } s el xs = true
+    | .nil, _, _ => by simp [allConform]
+    | .cons v r, hn, h => by
+      simp only [noTypenameItemsB, Bool.and_eq_true] at hn
+      simp only [allConform, Bool.and_eq_true] at h ⊢
+      exact ⟨conforms_dropT s b el v hn.1 h.1, allConform_dropT s b el r hn.2 h.2⟩
+  theorem fieldsDeclared_dropT (s : Schema) (b : Bool) (fields : List FieldDef) : (kvs : GoFields) → noTypenameFieldsB kvs = true →
+      fieldsDeclared { typenameKey := true, single := b } s fields kvs = true →
+      fieldsDeclared { typenameKey := false, single := b } s fields kvs = true
+    | .nil, _, _ => by simp [fieldsDeclared]
+    | .cons k v r, hn, h => by
+      simp only [noTypenameFieldsB, Bool.and_eq_true, decide_eq_true_eq] at hn
+      simp only [fieldsDeclared, Bool.and_eq_true] at h ⊢
+      refine ⟨?_, fieldsDeclared_dropT s b fields r hn.2 h.2⟩
+      cases hf : fields.find? (fun f => f.name = k) with
+      | some fd => simp only [hf] at h ⊢; exact conforms_dropT s b fd.type v hn.1.2 h.1
+      | none => simp only [hf] at h; simp [hn.1.1] at h
+end
+
+/- ---------- coercion adds no `__typename` key ---------- -/
+
+theorem noTypenameFields_lookup : ∀ (kvs : GoFields) (k : Bytes) (x : GoVal),
+    noTypenameFieldsB kvs = true → kvs.lookup k = some x → noTypenameB x = true ∧ k ≠ str "__typename"
+  | .nil, _, _, _, h => by simp [GoFields.lookup] at h
+  | .cons a w r, k, x, hs, h => by
+    simp only [noTypenameFieldsB, Bool.and_eq_true, decide_eq_true_eq] at hs
+    simp only [GoFields.lookup] at h
+    split at h
+    · rename_i e; cases h; exact ⟨hs.1.2, by rw [← e]; exact hs.1.1⟩
+    · exact noTypenameFields_lookup r k x hs.2 h
+
+theorem noTypenameFields_set : ∀ (kvs : GoFields) (k : Bytes) (x : GoVal),
+    noTypenameFieldsB kvs = true → noTypenameB x = true → k ≠ str "__typename" → noTypenameFieldsB (kvs.set k x) = true
+  | .nil, k, x, _, hx, hk => by simp [GoFields.set, noTypenameFieldsB, hx, hk]
+  | .cons a w r, k, x, hs, hx, hk => by
+    simp only [noTypenameFieldsB, Bool.and_eq_true, decide_eq_true_eq] at hs
+    simp only [GoFields.set]
+    split
+    · simp [noTypenameFieldsB, hx, hs.2, hs.1.1]
+    · simp [noTypenameFieldsB, hs.1.1, hs.1.2, noTypenameFields_set r k x hs.2 hx hk]
+
+theorem listLoop_noTypename (f : Path → GoVal → Res GoVal) (path : Path) (b1 b2 : Bool)
+    (hf : ∀ p x r, f p x = .ok r → noTypenameB x = true → noTypenameB r = true) :
+    ∀ (xs xs' : GoVals) (i : Nat), listLoop f path b1 b2 i xs = .ok xs' → noTypenameItemsB xs = true → noTypenameItemsB xs' = true
+  | .nil, xs', i, h, _ => by simp only [listLoop] at h; cases h; rfl
+  | .cons x rest, xs', i, h, hn => by
+    simp only [noTypenameItemsB, Bool.and_eq_true] at hn
+    simp only [listLoop] at h
+    split at h
+    · simp at h
+    · cases hfx : f (path ++ [.idx i]) x with
+      | ok ret =>
+        simp only [hfx] at h
+        cases hl : listLoop f path b1 b2 (i + 1) rest with
+        | ok rest' =>
+          simp only [hl] at h; cases h
+          simp [noTypenameItemsB, hf _ _ _ hfx hn.1, listLoop_noTypename f path b1 b2 hf rest rest' (i + 1) hl hn.2]
+        | err m p a => simp [hl] at h
+        | panic m => simp [hl] at h
+        | outOfFuel => simp [hl] at h
+      | err m p a => simp [hfx] at h
+      | panic m => simp [hfx] at h
+      | outOfFuel => simp [hfx] at h
+
+theorem fieldLoop_noTypename (f : Path → GType → GoVal → Res GoVal) (path : Path)
+    (hf : ∀ p t x r, f p t x = .ok r → noTypenameB x = true → noTypenameB r = true) :
+    ∀ (fields : List FieldDef) (elem : GoType) (kvs : GoFields) (elem' : GoType) (kvs' : GoFields),
+      fieldLoop f path fields elem kvs = .ok (elem', kvs') → noTypenameFieldsB kvs = true → noTypenameFieldsB kvs' = true
+  | [], elem, kvs, elem', kvs', h, hn => by simp only [fieldLoop] at h; cases h; exact hn
+  | fd :: rest, elem, kvs, elem', kvs', h, hn => by
+    have ih := fun e2 k2 => fieldLoop_noTypename f path hf rest e2 k2 elem' kvs'
+    simp only [fieldLoop] at h
+    cases hl : kvs.lookup fd.name with
+    | none =>
+      simp only [hl] at h
+      by_cases hnn : fd.type.nonNull = true
+      · simp only [hnn, if_true] at h
+        cases hdf : fd.default with
+        | none => simp [hdf] at h
+        | some dv =>
+          simp only [hdf] at h
+          split at h
+          · exact ih _ _ h hn
+          · simp at h
+      · simp only [hnn, Bool.false_eq_true, if_false] at h
+        exact ih _ _ h hn
+    | some x =>
+      simp only [hl] at h
+      obtain ⟨hx, hk⟩ := noTypenameFields_lookup kvs fd.name x hn hl
+      split at h
+      · split at h
+        · simp at h
+        · exact ih _ _ h hn
+      · cases hr : f (path ++ [.name fd.name]) fd.type x with
+        | ok cval =>
+          simp only [hr] at h
+          cases hty : cval.type? with
+          | none => simp [hty] at h
+          | some t =>
+            simp only [hty] at h
+            exact ih _ _ h (noTypenameFields_set kvs fd.name cval hn (hf _ _ _ _ hr hx) hk)
+        | err m p a => simp [hr] at h
+        | panic m => simp [hr] at h
+        | outOfFuel => simp [hr] at h
+
+/-- the returned value has the key `__typename` in some object only if the argument had it -/
+theorem validateVarType_noTypename (s : Schema) :
+    ∀ (fuel : Nat) (path : Path) (typ : GType) (val ret : GoVal),
+      validateVarType s fuel path typ val = .ok ret → noTypenameB val = true → noTypenameB ret = true
+  | 0, _, _, _, _, h, _ => by simp [validateVarType] at h
+  | fuel + 1, path, typ, val, ret, h, hn => by
+    have ih := validateVarType_noTypename s fuel
+    cases typ with
+    | list e nn p =>
+      by_cases hvn : val = .nil
+      · subst hvn; rw [vvt_list_nil] at h; cases h; rfl
+      by_cases hsl : ∃ t xs, val = GoVal.slice t xs
+      · obtain ⟨t, xs, rfl⟩ := hsl
+        simp only [validateVarType, GoVal.isNil, Bool.false_eq_true, if_false] at h
+        cases hr : listLoop (fun p x => validateVarType s fuel p e x) path (decide (t = .iface)) e.nonNull 0 xs with
+        | ok xs' =>
+          simp only [hr] at h; cases h
+          simpa [noTypenameB] using listLoop_noTypename _ path _ _ (fun p x r h1 h2 => ih p e x r h1 h2) xs xs' 0 hr (by simpa [noTypenameB] using hn)
+        | err m p a => simp [hr] at h
+        | panic m => simp [hr] at h
+        | outOfFuel => simp [hr] at h
+      · have hns : ∀ t xs, val ≠ GoVal.slice t xs := fun t xs h => hsl ⟨t, xs, h⟩
+        rw [vvt_list_nonslice s fuel path e nn p val hvn hns] at h
+        cases hty : val.type? with
+        | none => simp [hty] at h
+        | some t =>
+          simp only [hty] at h
+          cases hr : validateVarType s fuel (path ++ [.idx 0]) e val with
+          | ok r =>
+            simp only [hr] at h; cases h
+            simp [noTypenameB, noTypenameItemsB, ih _ _ _ _ hr hn]
+          | err m p a => simp [hr] at h
+          | panic m => simp [hr] at h
+          | outOfFuel => simp [hr] at h
+    | named n nn p =>
+      simp only [validateVarType] at h
+      cases hd : s.type? n with
+      | none => simp [hd] at h
+      | some d =>
+        simp only [hd] at h
+        split at h
+        · cases h; exact hn
+        · cases hk : d.kind <;> simp only [hk] at h
+          case scalar =>
+            cases hty : val.type? with
+            | none => simp [hty] at h
+            | some t =>
+              simp only [hty] at h
+              split at h <;> first | (cases h; exact hn) | simp at h
+          case enum =>
+            cases hty : val.type? with
+            | none => simp [hty] at h
+            | some t =>
+              simp only [hty] at h
+              split at h
+              · simp at h
+              · split at h <;> first | (cases h; exact hn) | simp at h
+          case inputObject =>
+            cases val with
+            | map elem kvs =>
+              simp only [] at h
+              cases hu : unknownKeys d.fields kvs with
+              | cons k others => simp [hu] at h
+              | nil =>
+                simp only [hu] at h
+                cases hr : fieldLoop (fun p t x => validateVarType s fuel p t x) path d.fields elem kvs with
+                | ok pr =>
+                  obtain ⟨e', kvs'⟩ := pr
+                  simp only [hr] at h; cases h
+                  simpa [noTypenameB] using fieldLoop_noTypename _ path (fun p t x r h1 h2 => ih p t x r h1 h2) d.fields elem kvs e' kvs' hr (by simpa [noTypenameB] using hn)
+                | err m p a => simp [hr] at h
+                | panic m => simp [hr] at h
+                | outOfFuel => simp [hr] at h
+            | _ => simp at h
+          all_goals simp at h
+
+theorem jsonNumberPre_noTypename {typ : GType} {val rv : GoVal} (hn : noTypenameB val = true)
+    (h : jsonNumberPre typ val = .ok rv) : noTypenameB rv = true := by
+  unfold jsonNumberPre at h
+  cases val with
+  | jsonNumber t =>
+    simp only [] at h
+    split at h
+    · split at h <;> first | (cases h; rfl) | simp at h
+    · split at h
+      · split at h <;> first | (cases h; rfl) | simp at h
+      · cases h; rfl
+  | _ => simp only [] at h; cases h; exact hn
+
+theorem coerceSupplied_noTypename {s : Schema} {op : OperationDef} {v : VarDef} {acc c : GoFields} {x : GoVal}
+    (hn : noTypenameB x = true) (h : coerceSupplied s op v acc x = .ok c) :
+    ∃ y, c = acc.set v.var y ∧ noTypenameB y = true := by
+  unfold coerceSupplied at h
+  split at h
+  · split at h
+    · simp at h
+    · cases h; exact ⟨.nil, rfl, rfl⟩
+  · cases hj : jsonNumberPre v.type x with
+    | error m => simp [hj] at h
+    | ok rv =>
+      simp only [hj] at h
+      cases hr : validateVarType s (fuelFor s op rv) (varPath v) v.type rv with
+      | ok rval =>
+        simp only [hr] at h
+        split at h
+        · simp at h
+        · cases h
+          exact ⟨rval, rfl, validateVarType_noTypename s _ _ _ _ _ hr (jsonNumberPre_noTypename hn hj)⟩
+      | err m p a => simp [hr] at h
+      | panic m => simp [hr] at h
+      | outOfFuel => simp [hr] at h
 
 end Gql
